@@ -24,16 +24,19 @@ structure DS where
   chunk   : Nat := 1
   cli     : List Cli := []      -- index = identity
   prev    : List String := []   -- last printed snapshot per identity
+  hooks   : List (String × Nat × String × Nat) := []   -- armed: (callback, ctx, worker act, target)
+  post    : List (Nat × Nat) := []   -- (ctx, count seen by the callback after the worker act it hosted)
 
 def memCh : Mem → String
   | .none => "-" | .live => "L" | .freed => "F"
 
-def snap (s : St) (c : Nat) : String :=
+def snap (s : St) (post : List (Nat × Nat)) (c : Nat) : String :=
   let x := s.ctx c
   let r := if x.mem = .live then toString x.ref else "-"
-  s!"c{c}:{memCh x.mem} r{r} k{x.nConn} a{x.nAdd} x{x.nCls} l{x.nRel} d{x.nFdc} f{x.nFree} g{x.got.length}"
+  let h := match post.find? (fun p => p.1 == c) with | some p => toString p.2 | none => "-"
+  s!"c{c}:{memCh x.mem} r{r} k{x.nConn} a{x.nAdd} x{x.nCls} l{x.nRel} d{x.nFdc} f{x.nFree} g{x.got.length} o{x.oConn}.{x.oAdd}.{x.oCls}.{x.oRel} h{h}"
 
-def snaps (s : St) : List String := (List.range s.n).map (snap s)
+def snaps (s : St) (post : List (Nat × Nat)) : List String := (List.range s.n).map (snap s post)
 
 def diffLine (prev cur : List String) : String :=
   let rec go : List String → List String → List String
@@ -62,8 +65,8 @@ def endLines (d : DS) : String :=
     (x.mem = .freed && x.fdOpen) ||
     (x.mem = .none && x.origin = .accepted && x.fdOpen && !(s.backlog.any fun p => p.1 == c))
   let ex := if s.exited then "1" else "0"
-  let m := s!"end exited={ex} leaks={idsStr leaks} multi={idsStr multi} bad={idsStr bad} lost={idsStr lost} fdl={idsStr fdl} wild=0"
-  s!"{m} | end exited={ex} leaks=- multi=- bad=- lost=- fdl=- wild=0"
+  let m := s!"end exited={ex} leaks={idsStr leaks} multi={idsStr multi} bad={idsStr bad} lost={idsStr lost} fdl={idsStr fdl} unowned=- wild=0"
+  s!"{m} | end exited={ex} leaks=- multi=- bad=- lost=- fdl=- unowned=- wild=0"
 
 def setCli (l : List Cli) (i : Nat) (f : Cli → Cli) : List Cli :=
   l.mapIdx fun j k => if j = i then f k else k
@@ -76,13 +79,62 @@ def canTouch (d : DS) (c : Nat) : Bool :=
   let x := d.s.ctx c
   c < d.s.n && x.mem = .live && (x.held > 0 || (d.parked && !d.s.exited))
 
+/-- the worker act hosted by a callback on `id`: performed iff it is legal at that moment -/
+def hookAct (s : St) (id : Nat) (act : String) (t : Nat) : Except Err St :=
+  let x := s.ctx t
+  if act = "wrel" then (if t < s.n && x.held > 0 then apply s (.workerRelease t) else .ok s)
+  else if act = "retain" then
+    (if t < s.n && x.mem = .live && (t = id || x.held > 0) then apply s (.retain t) else .ok s)
+  else .ok s
+
+/-- fire the armed hooks of callback `cb` on `id` -/
+def fire (d : DS) (s : St) (cb : String) (id : Nat) : Except Err (DS × St) := do
+  let mine := d.hooks.filter fun h => h.1 == cb && h.2.1 == id
+  if mine.isEmpty then return (d, s) else
+  let mut s := s
+  for h in mine do
+    s ← hookAct s id h.2.2.1 h.2.2.2
+  -- the callback goes on using its context: it reads the count again
+  let x ← s.live id
+  let d := { d with hooks := d.hooks.filter fun h => !(h.1 == cb && h.2.1 == id),
+                    post := (id, x.ref) :: d.post.filter fun p => p.1 != id }
+  return (d, s)
+
+/-- one registered context gets its turn, with the hosted worker acts in their places -/
+def turnCtx (d : DS) (s : St) (c : Nat) : Except Err (DS × St) := do
+  if !s.reg.contains c then return (d, s) else
+  let x := s.ctx c
+  let readable := !x.isListener && (!x.inq.isEmpty || x.eof)
+  let s ← apply s (.turnRead c d.chunk)
+  let (d, s) ← if readable then fire d s "msg" c else pure (d, s)
+  if (s.ctx c).flagClosed then
+    let s ← apply s (.closeBegin c)
+    let (d, s) ← fire d s "close" c
+    let s ← apply s (.closeEnd c)
+    return (d, s)
+  else return (d, s)
+
+def roundD (d : DS) (s : St) : Except Err (DS × St) := do
+  let s ← if s.queue.isEmpty then pure s else apply s .wake
+  let mut ds := (d, s)
+  for c in s.reg do
+    ds ← turnCtx ds.1 ds.2 c
+  return ds
+
+def quiesceD : Nat → DS → St → Except Err (DS × St)
+  | 0, d, s => return (d, s)
+  | fuel + 1, d, s =>
+    if s.exited || !ready s then return (d, s) else do
+      let (d, s) ← roundD d s
+      quiesceD fuel d s
+
 def stepSeq (d : DS) : List String → DS × String
   | ["new", be, hints, _fam, rd] =>
     match be.toNat?, hints.toNat?, rd.toNat? with
     | some be, some h, some rd =>
       let cap := if be = 2 then some h else none
       let s := init cap true
-      ({ started := true, s := s, chunk := rd, cli := [{}], prev := snaps s }, "ok")
+      ({ started := true, s := s, chunk := rd, cli := [{}], prev := snaps s [] }, "ok")
     | _, _, _ => (d, "bad-op")
   | ["conn", a] =>
     if !d.started || d.s.exited then (d, "bad-op") else
@@ -142,11 +194,18 @@ def stepSeq (d : DS) : List String → DS × String
     if !d.started || d.s.exited || !d.parked then (d, "bad-op") else ({ d with parked := false }, "ok")
   | ["sync"] =>
     if !d.started then (d, "bad-op") else
-    match quiesce d.chunk (d.s.n + d.s.backlog.length + 8) d.s with
-    | .ok s =>
-      let cur := snaps s
+    match quiesceD (d.s.n + d.s.backlog.length + 8) d d.s with
+    | .ok (d, s) =>
+      let cur := snaps s d.post
       ({ d with s := s, prev := cur }, diffLine d.prev cur)
     | .error e => (d, errStr e)
+  | ["incb", cb, id, act, t] =>
+    match id.toNat?, t.toNat? with
+    | some id, some t =>
+      if !d.started || !(cb = "msg" || cb = "close") || !(act = "wrel" || act = "retain") || id = 0 || id ≥ 256 || t ≥ 256
+      then (d, "bad-op")
+      else ({ d with hooks := d.hooks ++ [(cb, id, act, t)] }, "ok")
+    | _, _ => (d, "bad-op")
   | ["exit"] =>
     if !d.started || d.s.exited then (d, "bad-op") else
     -- loop parked inside cb_wake: the queue was drained before the park, what was handed
